@@ -250,6 +250,10 @@ typedef struct ep
     int txmsg[1024];    /* message boundaries (end offsets) */
     int txmsgn;
     int rxpos;          /* bytes of peer->tx delivered in order to this endpoint's application */
+    unsigned char *etx; /* TLS 1.3 early data this endpoint's application submitted (a stream of its own: the
+                           application must re-send it after the handshake if the server refuses it) */
+    int etxn;
+    int erxpos;
     unsigned char seen[512][12]; /* DTLS: sender key fp || epoch || sequence of every datagram record already delivered here */
     int seenn;
     unsigned char ivs[256][16]; /* explicit IV blocks / last cipher blocks of CBC records this endpoint emitted */
@@ -541,7 +545,8 @@ static void emit_state(sb_t *o, ep_t *e)
 #ifdef USE_STATELESS_SESSION_TICKETS
         if (!e->server && ssl->sid) tick = ssl->sid->sessionTicketState;
 #endif
-        sb_printf(o, ",\"ivrep\":%d", e->ivrep);
+        sb_printf(o, ",\"ivrep\":%d,\"ce\":%d,\"se\":%d,\"ged\":%d,\"med\":%d", e->ivrep, ssl->tls13ClientEarlyDataEnabled ? 1 : 0,
+            ssl->tls13ServerEarlyDataEnabled ? 1 : 0, ssl->extFlags.got_early_data ? 1 : 0, (int) ssl->tls13SessionMaxEarlyData);
         sb_printf(o, ",\"kx\":\"%s\",\"suite\":%d,\"cauth\":%d,\"tick\":%d,\"psk13\":%d,\"early\":%d,\"tagmis\":%d",
             (t >= 0 && t <= 10) ? kxn[t] : "other", ssl->cipher ? ssl->cipher->ident : 0,
             !!(ssl->flags & SSL_FLAGS_CLIENT_AUTH), tick, ssl->sec.tls13UsingPsk ? 1 : 0,
@@ -619,7 +624,7 @@ static int ep_flush_ex(ep_t *e, int maxbytes, int timeout)
                 }
                 {
                     rec_t r = rec_make(buf + off, rl, 0);
-                    if (e->sealn > 0)
+                    if (e->sealn > 0 && !(USING_TLS_1_3(ssl) && e->sealq[0].wsec && buf[off] == 22))
                     {
                         r.itype = e->sealq[0].type; r.imsg = e->sealq[0].msg; r.wsec = e->sealq[0].wsec;
                         r.kfp = e->sealq[0].kfp; memcpy(r.seq, e->sealq[0].seq, 8); r.alvl = e->sealq[0].alvl; r.adesc = e->sealq[0].adesc;
@@ -635,7 +640,7 @@ static int ep_flush_ex(ep_t *e, int maxbytes, int timeout)
                         memmove(&e->sealq[0], &e->sealq[1], sizeof(e->sealq[0]) * (e->sealn - 1));
                         e->sealn--;
                     }
-                    else if (!(ssl->flags & SSL_FLAGS_WRITE_SECURE) && rl > hl)
+                    else if ((!(ssl->flags & SSL_FLAGS_WRITE_SECURE) || (USING_TLS_1_3(ssl) && buf[off] == 22)) && rl > hl)
                     {
                         /* unprotected record that did not pass through the seal hook (TLS 1.3 ClientHello) */
                         r.itype = buf[off]; r.imsg = buf[off] == 22 ? buf[off + hl] : -1; r.wsec = 0;
@@ -684,12 +689,23 @@ static void note_delivery(ep_t *e, unsigned char *pt, uint32 len)
     int ok = 0;
     if (p && !e->dtls)
     {
-        if (e->rxpos + (int) len <= p->txn && (len == 0 || memcmp(p->tx + e->rxpos, pt, len) == 0))
+        int isearly = e->server && e->ssl && e->ssl->hsState != SSL_HS_DONE;   /* only a client sends early data */
+        if (!isearly && e->rxpos + (int) len <= p->txn && (len == 0 || memcmp(p->tx + e->rxpos, pt, len) == 0))
         {
             ok = 1;
+            sb_printf(&e->dlv, "%s{\"len\":%u,\"ok\":%d,\"pos\":%d}", e->dlv.n ? "," : "", len, ok, e->rxpos);
+            e->rxpos += len;
         }
-        sb_printf(&e->dlv, "%s{\"len\":%u,\"ok\":%d,\"pos\":%d}", e->dlv.n ? "," : "", len, ok, e->rxpos);
-        if (ok) e->rxpos += len;
+        else if (isearly && e->erxpos + (int) len <= p->etxn && (len == 0 || memcmp(p->etx + e->erxpos, pt, len) == 0))
+        {
+            ok = 1;
+            sb_printf(&e->dlv, "%s{\"len\":%u,\"ok\":%d,\"pos\":%d}", e->dlv.n ? "," : "", len, ok, -1 - e->erxpos);
+            e->erxpos += len;
+        }
+        else
+        {
+            sb_printf(&e->dlv, "%s{\"len\":%u,\"ok\":%d,\"pos\":%d}", e->dlv.n ? "," : "", len, 0, e->rxpos);
+        }
     }
     else if (p)
     {
@@ -1039,6 +1055,7 @@ static void cmd_keys(char **tok, int ntok)
             psTls13SessionParams_t sp;
             memset(&sp, 0, sizeof(sp));
             sp.maxEarlyData = opt_int(tok, ntok, "early", 0);
+            if (sp.maxEarlyData > 0) sp.cipherId = (psCipher16_t) opt_int(tok, ntok, "pskcipher", 0x1301);  /* needed for early data keys */
             memset(pk, 0x60 + k, sizeof(pk));
             memset(pid, 0, sizeof(pid));
             snprintf((char *) pid, sizeof(pid), "mxpsk13-%d", k);
@@ -1278,7 +1295,9 @@ static void do_deliver(ep_t *src, int count, int chunk)
     {
         memcpy(dst->seen[dst->seenn++], seenkey, 12);
     }
-    if (dst->autoflush) ep_flush(dst, 0);
+    /* DTLS: REQUEST_SEND with an empty outbuf asks the caller to fetch the rebuilt flight (retransmission
+       triggered by a duplicate handshake message from the peer) */
+    if (dst->autoflush) ep_flush_ex(dst, 0, dst->dtls && dst->ssl && dst->lastrc == MATRIXSSL_REQUEST_SEND && dst->ssl->outlen == 0);
     emit_begin(&g_out, "deliver", dst);
     sb_printf(&g_out, ",\"from\":\"%s\",\"nrec\":%d,\"bytes\":%d,\"rtype\":%d,\"rid\":%d,\"origin\":%d,\"itype\":%d,\"imsg\":\"%s\",\"wsec\":%d,\"kmatch\":%d,\"seqm\":%d,\"auth\":%d,\"alvl\":%d,\"adesc\":%d,\"rs0\":%d",
         src->name, count, total, total > 0 ? buf[0] : -1, ids0, origin, itype, imsg >= 0 ? hs_name(imsg) : "-", wsec, kmatch, seqm, auth, alvl, adesc, rs0);
@@ -1330,9 +1349,10 @@ static void cmd_send(char **tok, int ntok)
     ep_t *e = ep_get(tok[1]);
     int len = atoi(tok[2]), i, rc;
     unsigned char *buf = malloc(len + 1);
-    int seedb = e->txn * 131 + (e->server ? 77 : 3);
+    int seedb = (e->txn + e->etxn) * 131 + (e->server ? 77 : 3);
     (void) ntok;
     for (i = 0; i < len; i++) buf[i] = (unsigned char) ((seedb + i * 7 + (i >> 8) * 13) & 0xff);
+    int ce0 = e->ssl && e->ssl->tls13ClientEarlyDataEnabled, se0 = e->ssl && e->ssl->tls13ServerEarlyDataEnabled;
     ep_call_begin(e);
     if (!e->ssl) { rc = -999; }
     else
@@ -1340,7 +1360,13 @@ static void cmd_send(char **tok, int ntok)
         rc = matrixSslEncodeToOutdata(e->ssl, buf, len);
     }
     e->lastrc = rc;
-    if (rc >= 0)
+    if (rc >= 0 && !e->server && e->ssl && e->ssl->hsState != SSL_HS_DONE && !e->dtls)
+    {
+        e->etx = realloc(e->etx, e->etxn + len + 1);      /* TLS 1.3 early data */
+        memcpy(e->etx + e->etxn, buf, len);
+        e->etxn += len;
+    }
+    else if (rc >= 0)
     {
         e->tx = realloc(e->tx, e->txn + len + 1);
         memcpy(e->tx + e->txn, buf, len);
@@ -1349,7 +1375,7 @@ static void cmd_send(char **tok, int ntok)
     }
     if (e->autoflush) ep_flush(e, 0);
     emit_begin(&g_out, "send", e);
-    sb_printf(&g_out, ",\"len\":%d,\"accepted\":%d", len, rc >= 0);
+    sb_printf(&g_out, ",\"len\":%d,\"accepted\":%d,\"ce0\":%d,\"se0\":%d", len, rc >= 0, ce0, se0);
     emit_state(&g_out, e);
     emit_end(&g_out);
     free(buf);
@@ -1376,7 +1402,7 @@ static void cmd_del(char **tok)
     e->ssl = NULL;
     for (i = 0; i < e->qn; i++) rec_free(&e->q[i]);
     for (i = 0; i < e->histn; i++) rec_free(&e->hist[i]);
-    free(e->tx); free(e->sub.s); free(e->dlv.s); free(e->alin.s); free(e->outrecs.s);
+    free(e->tx); free(e->etx); free(e->sub.s); free(e->dlv.s); free(e->alin.s); free(e->outrecs.s);
     if (e->peer && e->peer->peer == e) e->peer->peer = NULL;
     emit_begin(&g_out, "del", e);
     emit_end(&g_out);
@@ -1426,13 +1452,14 @@ static void cmd_adv(char **tok, int ntok)
     {
         int i = idx_arg(e, tok[2]);
         rec_t r = q_remove(e, i);
-        emit_adv("drop", e, "\"idx\":%d,\"rid\":%d", i, r.id);
+        emit_adv("drop", e, "\"idx\":%d,\"rid\":%d,\"itype\":%d", i, r.id, r.itype);
         rec_free(&r);
     }
     else if (!strcmp(c, "dropall"))
     {
-        while (e->qn) { rec_t r = q_remove(e, 0); rec_free(&r); }
-        emit_adv("dropall", e, "");
+        int anyhs = 0;
+        while (e->qn) { rec_t r = q_remove(e, 0); if (r.itype == 22) anyhs = 1; rec_free(&r); }
+        emit_adv("dropall", e, "\"itype\":%d", anyhs ? 22 : 0);
     }
     else if (!strcmp(c, "dup"))
     {
@@ -1446,7 +1473,7 @@ static void cmd_adv(char **tok, int ntok)
     {
         int i = idx_arg(e, tok[2]), j = idx_arg(e, tok[3]);
         rec_t t = e->q[i]; e->q[i] = e->q[j]; e->q[j] = t;
-        emit_adv("swap", e, "\"idx\":%d,\"idx2\":%d", i, j);
+        emit_adv("swap", e, "\"idx\":%d,\"idx2\":%d,\"itype\":%d", i, j, (e->q[i].itype == 22 || e->q[j].itype == 22) ? 22 : e->q[i].itype);
     }
     else if (!strcmp(c, "mod"))
     {
@@ -1478,7 +1505,7 @@ static void cmd_adv(char **tok, int ntok)
         {
             e->q[i].b[hl - 2] = (nl - hl) >> 8; e->q[i].b[hl - 1] = (nl - hl) & 0xff;
         }
-        emit_adv("trunc", e, "\"idx\":%d,\"rlen\":%d", i, nl);
+        emit_adv("trunc", e, "\"idx\":%d,\"rlen\":%d,\"itype\":%d", i, nl, e->q[i].itype);
     }
     else if (!strcmp(c, "inject"))
     {
@@ -1654,7 +1681,7 @@ static void cmd_hsedit(char **tok, int ntok)
             msgs[i].itype = 22; msgs[i].imsg = msgs[i].b[hl]; msgs[i].wsec = 0;
             q_insert(e, first + i, msgs[i]);
         }
-        emit_adv("hsedit", e, "\"op\":\"%s\",\"k\":%d,\"nm\":%d", op, k, nm);
+        emit_adv("hsedit", e, "\"op\":\"%s\",\"k\":%d,\"nm\":%d,\"itype\":22", op, k, nm);
     }
 }
 
